@@ -203,6 +203,7 @@ type c17Stream struct {
 	ValueHex string `json:"value_hex"`
 	Cut      int    `json:"cut"`
 	Env      EnvCfg `json:"env"`
+	Declared int    `json:"declared_size,omitempty"` // the value is a 4-byte size prefix declaring this many bytes, of which only 70000 exist
 }
 
 var c17Methods = map[string]func(r *thrift.BufferReader, t int8) error{
@@ -235,6 +236,9 @@ func c17StreamOne(c *mc.Ctx, k c17Stream, enc []byte) {
 	bad := func(class, format string, a ...interface{}) {
 		kk := k
 		kk.ValueHex = hex.EncodeToString(enc)
+		if k.Declared > 0 {
+			kk.ValueHex = ""
+		}
 		c.Violate("stream", fmt.Sprintf("C17|BufferReader.%s|%s", k.Method, class),
 			fmt.Sprintf("BufferReader.%s on a %d-byte value whose stream ends after %d bytes with %s [%s]: ", k.Method, len(enc), k.Cut, termErrNames[k.Env.Err], k.Env)+fmt.Sprintf(format, a...), kk)
 	}
@@ -417,6 +421,21 @@ func c17Run(c *mc.Ctx) {
 			}
 		}
 	}
+	// values whose DECLARED size is beyond every pre-allocation limit (64 MiB+) on a stream that fails early
+	if c.Shard == 0 {
+		setAllocCap(512 << 20)
+		for _, decl := range []int{64<<20 + 1, 100 << 20} {
+			enc := append([]byte{byte(decl >> 24), byte(decl >> 16), byte(decl >> 8), byte(decl)}, stream(70000)...)
+			for _, m := range []string{"ReadBinary", "ReadString", "Skip"} {
+				for _, cut := range []int{4, 5, 4 + 4096, 4 + 65536, len(enc)} {
+					for e := range termErrs {
+						c17StreamOne(c, c17Stream{Method: m, Type: ref.STRING, Cut: cut, Env: EnvCfg{Chunk: 0, ErrWithLast: e%2 == 1, Err: e, AfterErr: e % 2}, Declared: decl}, enc)
+					}
+				}
+			}
+		}
+		setAllocCap(64 << 20)
+	}
 	c.R.Distinct += cuts
 	c.Count("stream-cut-positions", cuts)
 	c.Sample("stream", c17Stream{Method: "ReadString", ValueHex: "0000000568656c6c6f", Cut: 6, Env: EnvCfg{Chunk: 1, ErrWithLast: true, Err: 3}})
@@ -438,6 +457,10 @@ func init() {
 			if sub == "stream" {
 				replayAs(raw, func(k c17Stream) {
 					enc, _ := hex.DecodeString(k.ValueHex)
+					if k.Declared > 0 {
+						setAllocCap(512 << 20)
+						enc = append([]byte{byte(k.Declared >> 24), byte(k.Declared >> 16), byte(k.Declared >> 8), byte(k.Declared)}, stream(70000)...)
+					}
 					// the stale-state scenario needs a predecessor: run the same case once with another error value first
 					prev := k
 					prev.Env.Err = (k.Env.Err + len(termErrs) - 1) % len(termErrs) // the predecessor in the enumeration order
